@@ -33,7 +33,7 @@ def budget(tier):
     return {"examples": 160000, "shards": 16}
 
 
-DRIVES = ["start", "start", "start", "rut-beyond", "ruti-end", "ruti-beyond"]
+DRIVES = ["start", "start", "start", "rut-beyond", "ruti-end", "ruti-beyond", "rut-clock-first"]
 
 
 def strategy(tier):
@@ -120,6 +120,14 @@ def run_case(case):
     h = Harness(case)
     try:
         h.initialize()
+        if case.get("drive") == "rut-clock-first":
+            # an exclusive bound equal to the clock: events AT the clock are outside that horizon, nothing may run
+            t0 = case["rep"]["start"]
+            e0 = h.run_piece(["run_up_to", t0])
+            if h.model.trace:
+                out.fail("executed-at-exclusive-bound", {"bound": t0, "executed": h.model.trace[:3],
+                                                         "err": repr(e0) if e0 else None})
+            case = dict(case, drive="start")
         err = h.run_piece(_whole_run(case, ref))
         if err is not None:
             out.fail("start-raised", repr(err))
